@@ -111,7 +111,7 @@ def tlc(cwd, module, cfg=None, workers=1, timeout=1800, xmx="3g", extra=()):
     return p.returncode, p.stdout + p.stderr
 
 
-RE_DONE = re.compile(r'<<"TRACE_DONE", (\d+), <<(.*?)>>>>')
+RE_DONE = re.compile(r'<<"TRACE_DONE", (\d+), (\d+)>>')
 RE_FAIL = re.compile(r'<<"FAIL", "([^"]+)", (\d+)>>')
 RE_STATES = re.compile(r"(\d+) states generated, (\d+) distinct states found")
 
@@ -127,12 +127,14 @@ def validate_trace(ctx, name, tracefile, module="Trace", timeout=3000):
     m = RE_DONE.search(out)
     if not m or int(m.group(1)) != n:
         raise ToolError("trace validation of %s did not complete (rc=%d):\n%s" % (tracefile, rc, out[-3000:]))
-    rejected = [int(x) for x in m.group(2).split(",") if x.strip()]
     fails = {}
     for c, i in RE_FAIL.findall(out):
         fails.setdefault(int(i), [])
         if c not in fails[int(i)]:
             fails[int(i)].append(c)
+    rejected = sorted(fails.keys())
+    if len(rejected) != int(m.group(2)):
+        raise ToolError("trace validation of %s: %s rejected events but %d FAIL indices" % (tracefile, m.group(2), len(rejected)))
     sm = RE_STATES.search(out)
     st, di = (int(sm.group(1)), int(sm.group(2))) if sm else (0, 0)
     shutil.rmtree(d, ignore_errors=True)
@@ -157,7 +159,7 @@ def run_model(ctx, module, cfg=None, workers=NCPU, timeout=1500, extra=(), expec
 
 def event_key(ev):
     """Stable identity of a call: the event without results/probes."""
-    drop = {"probes", "gexp", "hints", "nontriv", "sol", "sol2same", "argsSame", "out", "ok", "uni", "chk"}
+    drop = {"probes", "gexp", "hints", "nontriv", "sol", "sol2same", "argsSame", "out", "ok", "uni", "chk", "res", "res2same", "res2", "det", "a2", "a2int", "b", "pip", "removed", "vars"}
     core = {k: v for k, v in ev.items() if k not in drop and not k.startswith("r_")}
     return hashlib.sha1(json.dumps(core, sort_keys=True).encode()).hexdigest()[:16]
 
@@ -241,52 +243,92 @@ def trim_sample(ev):
 TOOL_CLAUSES = {"DRIFT", "UNKNOWN-EVENT", "GENERATOR"}
 
 
+def reexec_batch(ctx, events, module, tag, cf=None):
+    """Re-execute recorded calls on the current build (optionally under a counter-factual
+    switch) and validate them in one TLC run. Returns per event (accepted, clauses)."""
+    if not events:
+        return []
+    tmp = os.path.join(ctx.work, "replay-%s.in.ndjson" % tag)
+    with open(tmp, "w") as f:
+        for ev in events:
+            f.write(json.dumps(ev) + "\n")
+    out = os.path.join(ctx.work, "replay-%s.ndjson" % tag)
+    args = ["reexec", "-in", tmp, "-out", out]
+    if cf:
+        args += ["-cf", cf]
+    run_harness(ctx, args)
+    res = validate_trace(ctx, "rp-" + tag, out, module=module)
+    ctx.states += res["states"]
+    if res["n"] != len(events):
+        raise ToolError("reexec produced %d events for %d inputs" % (res["n"], len(events)))
+    return [((i + 1) not in res["fails"], res["fails"].get(i + 1, [])) for i in range(len(events))]
+
+
 def triage(ctx, rejected, module):
-    """Reproduce every rejected event against a fresh execution, then classify."""
+    """Reproduce every rejected event against a fresh execution, then classify:
+    listed finding (by specific input, or by call site via a counter-factual re-execution
+    in which only the listed defect is switched off) or violation."""
     if not rejected:
         return
     rdir = os.path.join(ROOT, "replays", ctx.prop)
-    os.makedirs(rdir, exist_ok=True)
     for ev, clauses, mod, driver in rejected:
         if any(c in TOOL_CLAUSES for c in clauses):
             raise ToolError("tool-level rejection %s on event %s" % (clauses, json.dumps(ev)[:600]))
-        key = event_key(ev)
-        path = os.path.join(rdir, key + ".json")
-        ok, clauses2 = replay_event(ctx, ev, mod)
-        if ok:
-            # not reproduced: never a violation
-            ctx.notes.append("unreproduced rejection %s %s" % (clauses, key))
-            raise ToolError("rejection of event %s (%s) did not reproduce" % (key, clauses))
-        kf = match_known(ctx.prop, ev, clauses2)
-        if kf:
-            if kf not in ctx.known:
-                ctx.known.append(kf)
-                log("KNOWN-FINDING: property=%s %s" % (ctx.prop, kf.get("what", key)))
-            continue
-        with open(path, "w") as f:
-            json.dump(ev, f)
-        ctx.violations.append((",".join(clauses2), path))
-        log("VIOLATION property=%s replay=%s clause=%s" % (ctx.prop, path, ",".join(clauses2)))
+    by_mod = {}
+    for ev, clauses, mod, driver in rejected:
+        by_mod.setdefault(mod, []).append(ev)
+    known = load_known()
+    for mod, evs in by_mod.items():
+        rep = reexec_batch(ctx, evs, mod, "repro-" + mod)
+        open_evs = []
+        for ev, (ok, cl) in zip(evs, rep):
+            if ok:
+                raise ToolError("rejection of event %s did not reproduce" % event_key(ev))
+            if any(c in TOOL_CLAUSES for c in cl):
+                raise ToolError("tool-level rejection %s on replay of %s" % (cl, event_key(ev)))
+            kf = match_known(ctx.prop, ev, cl)
+            if kf:
+                note_known(ctx, kf)
+            else:
+                open_evs.append((ev, cl))
+        # call-site findings: the event must validate when exactly that site is switched off
+        for f in known.get("findings", []):
+            if not open_evs:
+                break
+            if ctx.prop not in f.get("properties", [f.get("property")]) or not f.get("counterfactual"):
+                continue
+            cfres = reexec_batch(ctx, [e for e, _ in open_evs], mod, "cf-%s-%s" % (f["id"], mod), cf=f["counterfactual"])
+            still = []
+            for (ev, cl), (ok, _) in zip(open_evs, cfres):
+                if ok:
+                    note_known(ctx, f)
+                else:
+                    still.append((ev, cl))
+            open_evs = still
+        for ev, cl in open_evs:
+            os.makedirs(rdir, exist_ok=True)
+            path = os.path.join(rdir, event_key(ev) + ".json")
+            with open(path, "w") as fo:
+                json.dump(ev, fo)
+            ctx.violations.append((",".join(cl), path))
+            log("VIOLATION property=%s replay=%s clause=%s" % (ctx.prop, path, ",".join(cl)))
+
+
+def note_known(ctx, f):
+    f.setdefault("_hits", 0)
+    for k in ctx.known:
+        if k.get("id") == f.get("id"):
+            k["_hits"] = k.get("_hits", 0) + 1
+            return
+    f["_hits"] = 1
+    ctx.known.append(f)
+    log("KNOWN-FINDING: property=%s %s" % (ctx.prop, f.get("what", f.get("id"))))
 
 
 def replay_event(ctx, ev, module="Trace"):
-    """Re-execute the recorded call on the current build and validate it alone.
-    Returns (accepted, failing clauses)."""
-    tmp = os.path.join(ctx.work, "replay-%s.json" % event_key(ev))
-    with open(tmp, "w") as f:
-        json.dump(ev, f)
-    out = os.path.join(ctx.work, "replay-%s.ndjson" % event_key(ev))
-    run_harness(ctx, ["reexec", "-in", tmp, "-out", out])
-    res = validate_trace(ctx, "rp-" + event_key(ev), out, module=module)
-    ctx.states += res["states"]
-    if not res["rejected"]:
-        return True, []
-    cl = []
-    for i in res["rejected"]:
-        for c in res["fails"].get(i, ["?"]):
-            if c not in cl:
-                cl.append(c)
-    return False, cl
+    """Re-execute one recorded call on the current build and validate it alone."""
+    (ok, cl), = reexec_batch(ctx, [ev], module, "single-" + event_key(ev))
+    return ok, cl
 
 
 def write_evidence(ctx, level="model_checking", rule="", assumptions=()):
@@ -305,7 +347,7 @@ def write_evidence(ctx, level="model_checking", rule="", assumptions=()):
             "rule": rule,
             "exhaustive": ctx.exhaustive,
             "model_runs": ctx.model_runs,
-            "known_findings_hit": [k.get("id", k.get("key")) for k in ctx.known],
+            "known_findings_hit": {k.get("id", k.get("key")): k.get("_hits", 1) for k in ctx.known},
             "notes": ctx.notes,
         },
         "assumptions": list(assumptions),
